@@ -139,7 +139,7 @@ def handle (j : Json) : R Json := do
          | some imp => judgeWire dt cand prev imp ival ire1 ire2
          | none => ["import:missing"]) ++
         (match icall with
-         | some c => judgeCall c irecall
+         | some c => judgeConv dt (PVal.ofJVal cand) c irecall
          | none => [])
       return Json.mkObj [("wf", .bool dt.wfB),
         ("model", Json.mkObj [("imp", outcomeToJson (some mimp)), ("val", outcomeToJson mval),
@@ -158,7 +158,7 @@ def handle (j : Json) : R Json := do
          | some v => judgeValidate dt cand prev v ire1 ire2
          | none => ["validate:missing"]) ++
         (match icall with
-         | some c => judgeCall c irecall
+         | some c => judgeConv dt cand c irecall
          | none => [])
       return Json.mkObj [("wf", .bool dt.wfB),
         ("model", Json.mkObj [("imp", .null), ("val", outcomeToJson (some mval)),
